@@ -36,7 +36,8 @@ REQUIRED = {"fed_evaluations": 5000, "best_eval_checks": 5000,
             "e2e_runs_judged": 100}
 MIN_NONTRIVIAL = {"quick": 100, "thorough": 500}
 PLAN = [("fed", 1600, 24000), ("e2e", 500, 8000), ("e2e_nan", 500, 8000),
-        ("e2e_tol", 300, 4000), ("cross", 300, 6000)]
+        ("e2e_tol", 300, 4000), ("e2e_soc", 300, 4000),
+        ("cross", 300, 6000)]
 
 TOL = 1e-8
 
@@ -164,6 +165,13 @@ def run_case(case):
     rng = e2e.rng_of(ID, case)
     if case["fam"] == "cross":
         spec, _src = e2e.cross_spec(ID, case)
+    elif case["fam"] == "e2e_soc":
+        # runs rich in second-order corrections, stopped early: the point
+        # returned may be a trial point that was corrected afterwards
+        from checks import c01
+        spec = c01.make_spec({"id": case["id"], "fam": "soc",
+                              "idx": case["idx"], "seed": case["seed"]})
+        spec["options"]["maxfev"] = int(rng.integers(5, 40))
     elif case["fam"] == "e2e_tol":
         # non-default feasibility tolerances (0, tiny, large) on problems
         # whose solution lies on a curved constraint approached from
